@@ -164,6 +164,9 @@ Section MooreProofs.
   Fixpoint xrun (x : X) (w : word) : X :=
     match w with [] => x | a :: r => xrun (step x a) r end.
 
+  Lemma xrun_app u : forall x v, xrun x (u ++ v) = xrun (xrun x u) v.
+  Proof. induction u as [|a u IH]; intros x v; simpl; [reflexivity|apply IH]. Qed.
+
   Lemma xrun_in_Q w : forall x, In x Q -> In (xrun x w) Q.
   Proof. induction w as [|a w IH]; intros x Hx; simpl; [exact Hx|]. apply IH. apply Q_closed. exact Hx. Qed.
 
@@ -346,5 +349,17 @@ Section MooreProofs.
     - destruct (refine_spec _ _ _ E) as [k [Hk Hs]]; [exists 0; reflexivity|].
       exists t, k. split; [reflexivity|]. split; assumption.
     - exfalso. revert E. apply refine_fuel_gen; [apply (iterT_is_tab 0)|]. lia.
+  Qed.
+
+  (* packaged: the loop returns a table that is exactly Nerode equivalence on Q *)
+  Theorem moore_nerode : exists t, moore eqbX step fin syms Q = Some t /\
+    (forall x y, In x Q -> In y Q ->
+       (look t x = look t y <-> forall w, fin (xrun x w) = fin (xrun y w))) /\
+    (forall x y, In x Q -> In y Q -> look t x <> look t y ->
+       exists w, Forall (fun a => In a syms) w /\ fin (xrun x w) <> fin (xrun y w)).
+  Proof.
+    destruct moore_ok as [t [k [E [Hk Hs]]]]. exists t. split; [exact E|]. subst t. split.
+    - intros x y Hx Hy. apply stable_is_nerode; assumption.
+    - intros x y Hx Hy. apply stable_dist; assumption.
   Qed.
 End MooreProofs.
